@@ -558,6 +558,96 @@ fn opcode_wiring(p: &str) -> String {
         !ok, name, ok, first, second, format!("{}", top).replace('"', "'").chars().take(80).collect::<String>())
 }
 
+#[derive(Debug)]
+struct CountingWatchdog {
+    polls: std::cell::Cell<usize>,
+    stop_from: usize,
+    interval: usize,
+}
+
+impl storage_layout_extractor::watchdog::Watchdog for CountingWatchdog {
+    fn should_stop(&self) -> bool {
+        let k = self.polls.get();
+        self.polls.set(k + 1);
+        k >= self.stop_from
+    }
+    fn poll_every(&self) -> usize {
+        self.interval
+    }
+}
+
+/// `unify` over N type variables without any evidence, polling every `interval` iterations: the number of polls must
+/// be about N / interval (the loop's counter has to advance on every iteration).
+fn unify_polls(p: &str) -> String {
+    use storage_layout_extractor::tc::{state::TypeCheckerState, unification::unify};
+    let n = param(p, "n").unwrap_or(50) as usize;
+    let interval = param(p, "interval").unwrap_or(10).max(1) as usize;
+    let mut state = TypeCheckerState::empty();
+    for _ in 0..n {
+        let _ = unsafe { state.allocate_ty_var() };
+    }
+    let wd = std::rc::Rc::new(CountingWatchdog { polls: std::cell::Cell::new(0), stop_from: usize::MAX, interval });
+    let dynwd: storage_layout_extractor::watchdog::DynWatchdog = wd.clone();
+    let r = unify(&mut state, &dynwd);
+    let polls = wd.polls.get();
+    let expected = n / interval + 1;
+    format!("{{\"violates\": {}, \"variables\": {}, \"interval\": {}, \"polls\": {}, \"expected_at_most\": {}, \"ok\": {}}}",
+        polls > expected + 1, n, interval, polls, expected + 1, r.is_ok())
+}
+
+/// Stop the analysis at every poll index in turn: each run must end in a StoppedByWatchdog error; and the number of
+/// polls of an uninterrupted run must track the interval (about half as many with interval 2 as with interval 1).
+fn watchdog_sweep(p: &str) -> String {
+    let interval = param(p, "interval").unwrap_or(2).max(1) as usize;
+    // storage writes in a short loop + calldata / code / returndata copies + a return
+    let code: Vec<u8> = vec![
+        0x60, 0x40, 0x5f, 0x5f, 0x37, // CALLDATACOPY 64 bytes
+        0x60, 0x40, 0x5f, 0x5f, 0x39, // CODECOPY
+        0x60, 0x20, 0x5f, 0x5f, 0x3e, // RETURNDATACOPY
+        0x5f, 0x35, 0x5f, 0x55, // sstore(0, calldataload(0))
+        0x60, 0x01, 0x54, 0x60, 0xff, 0x16, 0x60, 0x02, 0x55, // sstore(2, sload(1) & 0xff)
+        0x5f, 0x51, 0x60, 0x03, 0x55, // sstore(3, mload(0))
+        0x60, 0x20, 0x5f, 0xf3,
+    ];
+    let run = |stop_from: usize, interval: usize| {
+        let wd = std::rc::Rc::new(CountingWatchdog { polls: std::cell::Cell::new(0), stop_from, interval });
+        let contract = Contract::new(code.clone(), Chain::Ethereum { version: EthereumVersion::Shanghai });
+        let r = storage_layout_extractor::new(contract, Config::default(), tc::Config::default(), wd.clone()).analyze();
+        let desc = match &r {
+            Ok(l) => format!("Ok({} slots)", l.slots().len()),
+            Err(e) => format!("{e:?}").chars().take(120).collect(),
+        };
+        (wd.polls.get(), r.is_ok(), desc)
+    };
+    let (total1, ok1, _) = run(usize::MAX, 1);
+    let (total_n, okn, _) = run(usize::MAX, interval);
+    let mut bad = Vec::new();
+    if !ok1 || !okn {
+        bad.push("uninterrupted run failed".to_string());
+    }
+    if total1 == 0 {
+        bad.push("no polls at all".to_string());
+    }
+    let expect = total1 / interval;
+    if total_n + 12 < expect || total_n > expect + 12 {
+        bad.push(format!("polls with interval {interval}: {total_n}, with interval 1: {total1}"));
+    }
+    for k in 0..total1 {
+        let (polls, ok, desc) = run(k, 1);
+        if ok || !desc.contains("StoppedByWatchdog") {
+            bad.push(format!("stop at poll {k}: {desc}"));
+        }
+        if polls > k + 3 {
+            bad.push(format!("stop at poll {k}: {polls} polls before returning"));
+        }
+        if bad.len() > 4 {
+            break;
+        }
+    }
+    format!("{{\"violates\": {}, \"polls_interval_1\": {}, \"polls_interval_n\": {}, \"interval\": {}, \"problems\": \"{}\"}}",
+        !bad.is_empty(), total1, total_n, interval, bad.join("; ").replace('"', "'"))
+}
+
 fn main() {
     let args: Vec<String> = std::env::args().collect();
     if args.len() < 3 {
@@ -571,6 +661,8 @@ fn main() {
         "fork_first_visit" => fork_first_visit(&p),
         "jump_target_bits" => jump_target_bits(&p),
         "halting_opcode" => halting_opcode(&p),
+        "watchdog_sweep" => watchdog_sweep(&p),
+        "unify_polls" => unify_polls(&p),
         "opcode_wiring" => opcode_wiring(&p),
         "node_size" => node_size(&p),
         "truncated_push" => truncated_push(&p),
